@@ -211,6 +211,47 @@ func variantByName(cfg *PropCfg, name string) (Variant, bool) {
 	return Variant{}, false
 }
 
+
+// rssKB returns the resident set size of a process in KiB (0 when unknown).
+func rssKB(pid int) int64 {
+	b, err := os.ReadFile(fmt.Sprintf("/proc/%d/statm", pid))
+	if err != nil {
+		return 0
+	}
+	f := strings.Fields(string(b))
+	if len(f) < 2 {
+		return 0
+	}
+	pages, _ := strconv.ParseInt(f[1], 10, 64)
+	return pages * int64(os.Getpagesize()) / 1024
+}
+
+const memLimitKB = 3 << 20 // 3 GiB resident per worker (16 workers, 62 GiB machine); clean runs stay below 1 GiB
+
+// guardMemory kills the process when its resident memory exceeds the limit (the
+// sandbox has no memory limit of its own, and corrupted on-disk structures turn
+// into unbounded allocations). It returns a flag that tells whether it fired.
+func guardMemory(cmd *exec.Cmd, done <-chan struct{}) *bool {
+	fired := new(bool)
+	go func() {
+		tk := time.NewTicker(150 * time.Millisecond)
+		defer tk.Stop()
+		for {
+			select {
+			case <-done:
+				return
+			case <-tk.C:
+				if cmd.Process != nil && rssKB(cmd.Process.Pid) > memLimitKB {
+					*fired = true
+					cmd.Process.Kill()
+					return
+				}
+			}
+		}
+	}()
+	return fired
+}
+
 // runWorker runs one worker process over [from,to) and streams results.
 func runWorker(v Variant, prop, tier string, seed uint64, from, to int, deadline int64, samples int,
 	onResult func(*RunResult), onCrash func(run int, stderr string, exit int)) {
@@ -260,6 +301,7 @@ func runWorker(v Variant, prop, tier string, seed uint64, from, to int, deadline
 		}
 	}()
 	defer close(wdone)
+	memFired := guardMemory(cmd, wdone)
 	sc := bufio.NewScanner(stdout)
 	sc.Buffer(make([]byte, 1<<20), 1<<28)
 	for sc.Scan() {
@@ -281,6 +323,13 @@ func runWorker(v Variant, prop, tier string, seed uint64, from, to int, deadline
 	err = cmd.Wait()
 	if watchdogFired {
 		onCrash(cur, "WATCHDOG: the worker made no progress for 5 minutes and was killed", -4)
+		return
+	}
+	if *memFired && !finished {
+		onCrash(cur, "MEMORY: the worker exceeded 3 GiB of resident memory during this run and was killed", -5)
+		if cur+1 < to && time.Now().Unix() < deadline {
+			runWorker(v, prop, tier, seed, cur+1, to, deadline, 0, onResult, onCrash)
+		}
 		return
 	}
 	if !finished {
@@ -325,13 +374,20 @@ func replayOnce(v Variant, rf *ReplayFile, timeout time.Duration) (*RunResult, s
 		return nil, err.Error(), -1
 	}
 	done := make(chan error, 1)
+	gdone := make(chan struct{})
+	memFired := guardMemory(cmd, gdone)
 	go func() { done <- cmd.Wait() }()
 	select {
 	case err = <-done:
+		close(gdone)
 	case <-time.After(timeout):
+		close(gdone)
 		cmd.Process.Kill()
 		<-done
 		return nil, "timeout", -3
+	}
+	if *memFired {
+		return nil, "MEMORY: the worker exceeded 3 GiB of resident memory during this run and was killed", -5
 	}
 	code := 0
 	if ee, ok := err.(*exec.ExitError); ok {
@@ -358,6 +414,8 @@ func crashViolation(stderr string, exit int) (*Violation, bool) {
 		site = m[1]
 	}
 	switch {
+	case strings.HasPrefix(stderr, "MEMORY:"):
+		return &Violation{Oracle: "memory-blowup", Site: "worker", Msg: stderr + "\n(legal calls on the code under test allocated without bound - typically a corrupted length or offset read back from a segment)"}, true
 	case strings.Contains(stderr, "WARNING: DATA RACE"):
 		return &Violation{Oracle: "data-race", Site: site, Msg: stderr}, true
 	case strings.Contains(stderr, "fatal error:") || strings.Contains(stderr, "unexpected fault address") ||
@@ -780,7 +838,21 @@ func check(id, tier string, runsOverride, secsOverride int) int {
 
 	// violations: one report per class
 	findings := loadFindings()
-	sort.Slice(fails, func(a, b int) bool { return fails[a].run < fails[b].run })
+	// start from the failing run with the fewest choices of each class: many runs
+	// usually fail for one defect, and the shortest one minimises best
+	sort.SliceStable(fails, func(a, b int) bool {
+		la, lb := len(fails[a].trace), len(fails[b].trace)
+		if fails[a].crashed {
+			la = 1 << 30
+		}
+		if fails[b].crashed {
+			lb = 1 << 30
+		}
+		if la != lb {
+			return la < lb
+		}
+		return fails[a].run < fails[b].run
+	})
 	seen := map[string]bool{}
 	exit := 0
 	unstable := false
